@@ -276,6 +276,8 @@ def make_case(g, rng):
     # where the effective run space is declared: top level, nested under pipeline:, top level + a nested decoy
     # (top level wins), or a --run-space-file + a nested decoy (the file wins)
     placement = rng.choice(["top", "top", "nested", "top_plus_nested_decoy", "file_plus_nested_decoy"])
+    if cls in ("dry_run_space", "over_cap_cli_override", "over_cap") and g.chance(0.5):
+        placement = "nested"       # the CLI flags must reach a run space declared under pipeline: (fix 6f7d973)
     if run_space is None:
         placement = "top"          # no run space anywhere (a decoy or an override file would be one)
     return {"placement": placement, "class": cls, "nodes": nodes, "run_space": run_space, "argv_extra": argv_extra, "expect": expect, "yaml": yaml_name,
